@@ -20,7 +20,7 @@ fn main() {
     let out = std::io::stdout();
     let mut out = BufWriter::new(out.lock());
     let cmd = args.get(1).map(|s| s.as_str());
-    if matches!(cmd, Some("facts") | Some("replay") | Some("keys")) {
+    if matches!(cmd, Some("facts") | Some("replay") | Some("keys") | Some("record")) {
         harness::cli::run_table_cmd(&table(), &args, &mut out);
         return;
     }
